@@ -102,6 +102,7 @@ enum Sub
     A_ASSIGN_ITER,         // arrays: assign(first, last) with arg elements
     A_ASSIGN_IL,           // arrays: assign({v, v+1}) (arrays of at least two elements)
     A_PARTIAL_FILL,        // arrays: assign(count, value) with count = arg <= N
+    G_ITER_FORMS,          // flat groups, per entry i: *(1 + it), *(it - 1), *(it++), it-- / --it, and the relational operators / distance between it_i and it_(n-1-i) (bits = number of inconsistent answers)
     SUB_COUNT
 };
 
